@@ -296,6 +296,13 @@ class MerchantEngine:
                     f"Unexpected content in rule", line_num, line
                 )
 
+            # Content before the first [Rule] that is not a variable or transform
+            # assignment (e.g. a header that lost its bracket, or orphaned rule
+            # properties): reject it instead of silently dropping the lines
+            raise MerchantParseError(
+                f"Unexpected content outside of a rule", line_num, line
+            )
+
         # Save final rule
         if current_rule:
             self._add_rule(current_rule, rule_start_line)
